@@ -92,7 +92,14 @@ type c16Req struct {
 	lvl  int     // pre: level / variant
 	rd   string  // how the handler reads: "" / "all" = io.ReadAll; "chunk:<n>" = n bytes at a time to the end; "partial:<k>" = at most k bytes; "none"
 	cl   int     // how often the handler calls r.Body.Close() afterwards
+	chk  bool    // the request body has no known length (streaming source): sent with Transfer-Encoding: chunked, ContentLength -1,
+	//              unless the configured client compresses it first (the compressed buffer has a known length)
 }
+
+// c16Unsized hides the length of a body from net/http (no Len method): the request goes out chunked
+type c16Unsized struct{ r io.Reader }
+
+func (u c16Unsized) Read(p []byte) (int, error) { return u.r.Read(p) }
 
 type c16Case struct {
 	algosNil bool
@@ -338,6 +345,48 @@ func c16Corpus() []c16Case {
 	for i, ct := range []string{"gzip", "zstd", "zlib", "snappy", "lz4", "deflate"} {
 		cs = append(cs, c16Case{conc: &c16Conc{k: 4 + i, closes: 0, rounds: 2, ct: ct, clientBarrier: true}})
 	}
+	// requests of UNKNOWN length (Transfer-Encoding: chunked, ContentLength -1) through the full ToServer chain: identity and
+	// every algorithm (pre-compressed, so the stream stays chunked) × body below / at / above the limit / far above
+	for _, name := range []string{"", "gzip", "zlib", "deflate", "zstd", "snappy", "lz4"} {
+		var reqs []c16Req
+		for _, n := range []int{999, 1000, 1001, 50_000} {
+			b := c16Body{kind: 't', n: n}
+			if name == "" {
+				reqs = append(reqs, c16Req{mode: "client", body: b, chk: true})
+			} else {
+				reqs = append(reqs, c16Req{mode: "pre", hdr: name, lib: c16LibOf(name), lvl: c16PreLevel(vRand(n), c16LibOf(name)), body: b, chk: true})
+			}
+		}
+		reqs = append(reqs, c16Req{mode: "client", body: c16Body{kind: 't', n: 10}}) // and a sized one afterwards
+		cs = append(cs, c16Case{algosNil: true, max: 1000, ct: "none", reqs: reqs})
+	}
+	// incompressible chunked identity bodies against a compressing client too (the client buffers and sizes them)
+	cs = append(cs, c16Case{algosNil: true, max: 2000, ct: "gzip", reqs: []c16Req{
+		{mode: "client", body: c16Body{kind: 'r', n: 1900, seed: 1}, chk: true},
+		{mode: "client", body: c16Body{kind: 'z', n: 100_000}, chk: true},
+	}})
+	// names: the Content-Encoding a client writes is the configured algorithm's own name, so a server listing exactly that
+	// name accepts it and a server listing everything BUT that name (incl. the other name of the same format) rejects it
+	for _, ct := range []string{"gzip", "zlib", "deflate", "zstd", "snappy", "lz4"} {
+		var others []string
+		for _, nm := range c16Names {
+			if nm != ct {
+				others = append(others, nm)
+			}
+		}
+		body := c16Body{kind: 't', n: 400}
+		cs = append(cs, c16Case{algos: []string{ct}, max: 10000, ct: ct, reqs: []c16Req{{mode: "client", body: body}},
+			then: []c16Case{{algos: others, max: 10000, ct: ct, reqs: []c16Req{{mode: "client", body: body}}}}})
+	}
+	for _, pair := range [][2]string{{"deflate", "zlib"}, {"zlib", "deflate"}} {
+		// the two names of one format are separate switches
+		body := c16Body{kind: 'r', n: 300, seed: 2}
+		cs = append(cs, c16Case{algos: []string{"", pair[0]}, max: 10000, ct: pair[0], reqs: []c16Req{{mode: "client", body: body}},
+			then: []c16Case{
+				{algos: []string{"", pair[1]}, max: 10000, ct: pair[0], reqs: []c16Req{{mode: "client", body: body}}},
+				{algos: []string{pair[1], pair[0]}, max: 10000, ct: pair[0], reqs: []c16Req{{mode: "client", body: body}}},
+			}})
+	}
 	return cs
 }
 
@@ -472,6 +521,7 @@ func c16Gen(c int, rnd interface {
 				}
 			}
 		}
+		r.chk = rnd.IntN(3) == 0 // a body source of unknown length (chunked on the wire unless the client compresses it first)
 		if r.mode != "garbage" && rnd.IntN(3) == 0 {
 			// streaming behaviour of the handler: small chunks / a prefix only / nothing, and Close by the handler
 			n := len(r.body.bytes())
@@ -703,6 +753,9 @@ func c16Stage(t *testing.T, out *vOut, cs c16Case) bool {
 			given = c16Compress(rq.lib, rq.lvl, plain)
 		}
 		var bodyReader io.Reader = bytes.NewReader(given)
+		if rq.chk {
+			bodyReader = c16Unsized{bytes.NewReader(given)}
+		}
 		req, err := http.NewRequest(http.MethodPost, ts.URL, bodyReader)
 		if err != nil {
 			t.Fatal(err)
@@ -724,6 +777,17 @@ func c16Stage(t *testing.T, out *vOut, cs c16Case) bool {
 		seen.mu.Lock()
 		s := *seen
 		seen.mu.Unlock()
+		if s.wireLen < 0 {
+			// unknown length on the wire (chunked): only possible when the client passed the given bytes through
+			s.wireLen = int64(len(given))
+			out.Linef("stat chunked_on_the_wire 1")
+			if s.enc == "" {
+				out.Linef("stat chunked_identity 1")
+			}
+			if d := int64(len(given)) - limit; d >= -1 && d <= 1 {
+				out.Linef("stat chunked_at_limit_pm1 1")
+			}
+		}
 		// the model needs, as inputs, what only the compression library knows
 		extra := ""
 		truncated := s.enc != "" && s.wireLen > limit
@@ -743,7 +807,7 @@ func c16Stage(t *testing.T, out *vOut, cs c16Case) bool {
 		if rd == "" {
 			rd = "all"
 		}
-		out.Linef("op req mode=%s hdr=%s body=%s wire=%d rd=%s%s%s", rq.mode, vHex(rq.hdr), rq.body.String(), s.wireLen, rd, pre, extra)
+		out.Linef("op req mode=%s hdr=%s body=%s wire=%d rd=%s chunked=%d%s%s", rq.mode, vHex(rq.hdr), rq.body.String(), s.wireLen, rd, vB(rq.chk), pre, extra)
 		if lastRemote != "" && s.remote == lastRemote {
 			out.Linef("stat same_connection_as_previous_request 1")
 		}
